@@ -85,7 +85,7 @@ pub fn gen_wild(t: &mut Tape, o: &GenOpts) -> (Item, Vec<String>) {
     let (mut item, mut labels) = gen_item(t, o);
     let k = 1 + t.weighted(&[4, 4, 3, 2, 1, 1]);
     for _ in 0..k {
-        let m = t.below(11);
+        let m = t.below(12);
         match m {
             0 | 1 | 2 => {
                 // insert a wild attribute at a random site
@@ -218,6 +218,12 @@ pub fn gen_wild(t: &mut Tape, o: &GenOpts) -> (Item, Vec<String>) {
                         labels.push("wild:empty-tuple".into());
                     }
                 }
+            }
+            10 => {
+                // a structure-preserving recombination (change a hint or a kind set, named <-> tuple, swap the attribute lists of
+                // two members, change a dedication, strip a member name or an action): inputs validation has to catch or accept
+                crate::props::c17::recombine(t, &mut item, &mut labels);
+                labels.push("wild:recombine".into());
             }
             9 => {
                 // give a trait instruction a body-replacing / body-extending parameter it was not generated with:
